@@ -41,8 +41,23 @@ def cells(tier, seed):
                 out.append({'wc': w, 'wr': w2, 'form': 4, 'mode': mode,
                             'shape': [rnd.choice(HS), rnd.choice(WS)], 'N': rnd.choice([1, 2]),
                             'C': rnd.choice([1, 2, 3])})
+                if rnd.random() < 0.3:
+                    out.append(dict(out[-rnd.choice([1, 2])], tensors=True))
     rnd.shuffle(out)
     return out
+
+
+def tensor_filts(cell, synthesis, nonsep):
+    """filters already prepared as tensors by the library's own prep_filt_* helpers (the other
+    documented way of passing them)"""
+    import torch
+    from pytorch_wavelets.dwt import lowlevel
+    f = filts(dict(cell, form=4), synthesis)
+    with util.default_dtype(torch.float64):
+        if nonsep:
+            return (lowlevel.prep_filt_sfb2d_nonsep if synthesis else lowlevel.prep_filt_afb2d_nonsep)(*f)
+        t = (lowlevel.prep_filt_sfb2d if synthesis else lowlevel.prep_filt_afb2d)(*f)
+        return t[:2] if cell['form'] == 2 else t
 
 
 def filts(cell, synthesis):
@@ -65,8 +80,12 @@ def analysis(cell, kind, x):
     case = {'cell': cell, 'dir': 'analysis', 'input': kind}
     out = []
     with util.default_dtype(torch.float64):
-        ok1, y1 = util.call_lib(lowlevel.afb2d, x, filts(cell, False), cell['mode'])
-        ok2, y2 = util.call_lib(lowlevel.afb2d_nonsep, x, filts(cell, False), cell['mode'])
+        if cell.get('tensors'):
+            ok1, y1 = util.call_lib(lambda: lowlevel.afb2d(x, tensor_filts(cell, False, False), cell['mode']))
+            ok2, y2 = util.call_lib(lambda: lowlevel.afb2d_nonsep(x, tensor_filts(cell, False, True), cell['mode']))
+        else:
+            ok1, y1 = util.call_lib(lowlevel.afb2d, x, filts(cell, False), cell['mode'])
+            ok2, y2 = util.call_lib(lowlevel.afb2d_nonsep, x, filts(cell, False), cell['mode'])
     tol = 1e-11 * gain(cell, False) * max(float(x.abs().max()), 1e-300)
     if ok1 != ok2:
         out.append(res(VIOLATED, case, 'M-REF', 'separable %s, non-separable %s' % (
@@ -103,8 +122,12 @@ def synthesis(cell, kind, coeffs):
     out = []
     ll, lh, hl, hh = [coeffs[:, :, i].contiguous() for i in range(4)]
     with util.default_dtype(torch.float64):
-        ok1, y1 = util.call_lib(lowlevel.sfb2d, ll, lh, hl, hh, filts(cell, True), cell['mode'])
-        ok2, y2 = util.call_lib(lowlevel.sfb2d_nonsep, coeffs, filts(cell, True), cell['mode'])
+        if cell.get('tensors'):
+            ok1, y1 = util.call_lib(lambda: lowlevel.sfb2d(ll, lh, hl, hh, tensor_filts(cell, True, False), cell['mode']))
+            ok2, y2 = util.call_lib(lambda: lowlevel.sfb2d_nonsep(coeffs, tensor_filts(cell, True, True), cell['mode']))
+        else:
+            ok1, y1 = util.call_lib(lowlevel.sfb2d, ll, lh, hl, hh, filts(cell, True), cell['mode'])
+            ok2, y2 = util.call_lib(lowlevel.sfb2d_nonsep, coeffs, filts(cell, True), cell['mode'])
     tol = 1e-11 * gain(cell, True) * max(float(coeffs.abs().max()), 1e-300)
     if ok1 != ok2:
         out.append(res(VIOLATED, case, 'M-REF', 'separable %s, non-separable %s' % (
